@@ -203,8 +203,16 @@ def run(ctx):
                         base = peel(v[2][0])
                         ok = isinstance(base, tuple) and base[0] == 'entry' and Fn.path_of(base[1])[-2:] == [('f', 'port'), ('f', 'dst')]
                     # gate: change_port flag true
+                    def flag_true(fs):
+                        return any(isinstance(peel(k_), tuple) and peel(k_)[0] in ('entry', 'field') and 'change_port' in short(k_) and ((r_ == '!=' and c_ == 0) or (r_ == '==' and c_ == 1)) for (k_, r_, c_) in fs)
+                    # the flag of the attribute at hand (true edge of the test dominates the write in the same loop
+                    # iteration) ...
                     g = bool_edges(f, lambda d: isinstance(peel(d), tuple) and peel(d)[0] in ('entry', 'field') and 'change_port' in short(d), True)
                     off = f.must_pass(g, [bi]) if g else [bi]
+                    if off:
+                        # ... or `attributes.iter().any(|a| .. a.change_port)` established on every path state
+                        at_ = path_states_at(f, [bi], lambda k_: True, stable_fn=lambda k_: is_call(peel(k_, unwraps=False), r'Iterator>::any$|Iterator::any$'))[bi]
+                        off = not at_ or any(not (exists_element_with(F, f, fs, flag_true) is not None and 'attributes' in short(exists_element_with(F, f, fs, flag_true))) for fs in at_)
                     rep.check(r2, ok and not off, key, 'port.dst <- %s; under change_port==true on every path: %s' % (short(val)[:90], not off), loc)
                     # the rewrite belongs to an answer: from it no silent return is reachable
                     rty_ = f.locals[0]['ty']
